@@ -29,6 +29,7 @@ type Env struct {
 	stats  map[string]int
 	NCases int
 	Replay []string // when non-empty: run exactly these case lines
+	GenOnly bool    // -genonly: emit the case lines without running them (crash isolation by bin/check)
 }
 
 func (e *Env) Thorough() bool { return e.Tier == "thorough" }
@@ -69,6 +70,7 @@ func main() {
 	outp := fs.String("out", "", "output file (default stdout)")
 	statp := fs.String("stats", "", "distribution counters file")
 	replay := fs.String("replay", "", "file with case lines to run instead of generating")
+	genonly := fs.Bool("genonly", false, "emit generated case lines without running them")
 	fs.Parse(os.Args[2:])
 	w := os.Stdout
 	if *outp != "" {
@@ -79,7 +81,7 @@ func main() {
 		defer f.Close()
 		w = f
 	}
-	env := &Env{Rng: NewRng(*seed), Tier: *tier, Seed: *seed, out: bufio.NewWriterSize(w, 1<<20), stats: map[string]int{}}
+	env := &Env{Rng: NewRng(*seed), Tier: *tier, Seed: *seed, out: bufio.NewWriterSize(w, 1<<20), stats: map[string]int{}, GenOnly: *genonly}
 	if *replay != "" {
 		f, err := os.Open(*replay)
 		if err != nil {
